@@ -8,7 +8,7 @@ Input (tab separated):
   backend  mode  shape  planGenuine  planEmpty  iptGenuine  iptEmpty  faultPos  faultKind  prevDiff  fuel
   backend ∈ ASA IOS Linux PAN-OS NSX;  mode ∈ approve compare;  shape: k=v,k=v (yesno enablepw pageroff
   width511 saveask overwrite nochanges pend);  plans: packets separated by '|', the two lines of a joined
-  packet by '~';  faultPos = -1: no fault;  prevDiff: the status file already says compare DIFF.
+  packet by '~';  faultPos = -1: no fault;  prevDiff: 1 = the status file already says compare DIFF, 2 = compare UPTODATE (both of policy p0).
 Output: key=value fields separated by blanks, see `answer`.
 -/
 namespace NA.Drv.C09
@@ -80,7 +80,9 @@ def answer (line : String) : String :=
         fuel := fuel.toNat?.getD 50 }
       let s := runProg b env
       let prev : Status := if prevDiff == "1" then
-        { approve := ⟨"OK", "p0", 1727000000⟩, compare := ⟨"DIFF", "p0", 1727000001⟩ } else {}
+        { approve := ⟨"OK", "p0", 1727000000⟩, compare := ⟨"DIFF", "p0", 1727000001⟩ }
+        else if prevDiff == "2" then
+        { approve := ⟨"OK", "p0", 1727000000⟩, compare := ⟨"UPTODATE", "p0", 1727000001⟩ } else {}
       let o := doApprove env.compare prev "p1" 1727626790 s.tr (exitCode s)
       let scps := ",".intercalate (s.tr.filterMap fun e => match e with | .scp w => some w | _ => none)
       let res := if env.compare then o.status.compare.result else o.status.approve.result
